@@ -1,7 +1,9 @@
 """C14 — admission totality: untrusted transactions never crash a node.
 spec/admission/Admission.tla; binding: every (world, sender, shape) TLC enumerates is concretised and sent through
-mempool.verifyTx -> mempool.validateTx -> chain.executeTx of the real code under recover() (harness/mempool)."""
-import json, os
+mempool.verifyTx -> mempool.validateTx -> chain.executeTx of the real code under recover() (harness/mempool).
+spec/admission/EnterpriseConf.tla (stateful part): the storage of aergo.enterprise after every history of admitted
+transactions; every transition replayed through the same entry points on a real state DB (TestVerifEntConf)."""
+import json, os, shutil, subprocess, time
 import vlib
 
 LEVEL = "model_checking"
@@ -14,7 +16,19 @@ MANIFEST = dict(
          "turns each shape into several seeded concrete transactions, delivers them through a protobuf round trip to the real MemPool.verifyTx, "
          "MemPool.validateTx and, for everything the real pool admits, chain.NewTxExecutor/executeTx on a real BlockState in producer and validator "
          "mode, all under recover(); after a successfully executed transaction the block is committed, the node's state readers are run and a probe "
-         "transaction per governance call is sent through all layers again.  A panic is a violation; which rejection is returned is not compared.",
+         "transaction per governance call is sent through all layers again (after a vote also a plain transfer with gas limit 0, admitted with the "
+         "parameters the running node then holds).  A panic is a violation; which rejection is returned is not compared.  "
+         "EnterpriseConf.tla (stateful part) models the storage of aergo.enterprise as the code keeps it: per conf key the serialised bytes as a "
+         "sequence of atoms (ON/OFF, then separator + value per value; a value is a sequence over an alphabet holding the separator backslash, the "
+         "colon, base64/non-base64, address/name/non-address, well-formed/malformed list entries, the empty value), every read through Deserialize = "
+         "strings.Split(data, sep)[1:]; actions = the 96 transactions of an alphabet (set/append/remove/enableConf for every key, append/removeAdmin, "
+         "changeCluster, transfer; two senders) admitted by the transcribed ValidateEnterpriseTx + whitelist and executed; TLC checks Total (no "
+         "validator reaches an undefined index whatever admitted transactions stored), ReadersDefined, RoundTrip (what an admitted conf transaction "
+         "set is what is read back) over every history of <= 3 (quick) / <= 4 (thorough) transactions, and must find Total violated when the "
+         "separator check is removed (self-test).  The harness reaches every enumerated state on a real state DB through the real pool and executor "
+         "and sends every transaction of the alphabet through verifyTx, validateTx, executeTx (commit) and the readers (GetAdmin, GetConf, "
+         "mempool.setStateDB, p2p list.RefineList): a panic or a lost/changed value on read-back is a violation; the model's accept/reject and "
+         "successor bytes are compared with the contract storage and counted.",
     note="states of the sender classes are built by the real executor; contract VM replaced by the overlay stub (governance does not use it); "
          "fee delegation answered by a stand-in for the chain service actor over the VM stub; byte-level coverage is sampled per class",
     technique="TLA+/TLC exhaustive enumeration of an abstract input grammar with per-layer outcome model; concretisation of every enumerated "
@@ -45,12 +59,125 @@ def parse_cases(out):
     return cases, probes, worlds
 
 
+# ---------------------------------------------------------------- EnterpriseConf.tla: stored state of aergo.enterprise
+
+EC_WORLD = {"name": "raft3", "public": False, "consensus": "raft", "fork": 3, "lowmin": False}
+EC_KEYS = ["RPC", "ACCW", "P2PW", "P2PB"]
+
+
+def ec_parse(out, maxlen):
+    """TR| lines of Gen_EnterpriseConf*.cfg -> input of TestVerifEntConf: ops, states (0 = initial), per expanded state
+    the outcome and successor of every op, a shortest history to every state."""
+    ops, opidx, states, stidx, raw = [], {}, [], {}, []
+
+    def sid(v):
+        k = json.dumps(v)
+        if k not in stidx:
+            stidx[k] = len(states)
+            states.append({"store": dict(zip(EC_KEYS, v[:4])), "admins": v[4]})
+        return stidx[k]
+
+    for line in out.splitlines():
+        if line.startswith('"IS|') and not states:
+            sid(json.loads(tla_line(line, "IS|").replace("<<", "[").replace(">>", "]")))      # state 0 = the initial state
+        if not line.startswith('"TR|'):
+            continue
+        try:
+            v = json.loads(tla_line(line, "TR|").replace("<<", "[").replace(">>", "]"))
+            src, (op, outc), dst = v
+        except ValueError as e:
+            raise vlib.Infra("EnterpriseConf generation: unreadable line %r (%s)" % (line[:200], e))
+        if not states:
+            raise vlib.Infra("EnterpriseConf generation: no IS| line before the transitions")
+        raw.append((sid(src), json.dumps(op), op, outc, sid(dst)))
+    if not raw:
+        raise vlib.Infra("EnterpriseConf generation printed no transition")
+    for k in sorted({r[1] for r in raw}):
+        o = json.loads(k)
+        opidx[k] = len(ops)
+        ops.append({"op": o[0], "who": o[1], "key": o[2], "vals": o[3], "flag": o[4] == "true", "addr": o[5]})
+    trans = [None] * len(states)
+    for s, k, op, outc, d in raw:
+        if outc not in ("accept", "reject"):
+            raise vlib.Infra("EnterpriseConf generation: outcome %r in the design" % outc)
+        if trans[s] is None:
+            trans[s] = [None] * len(ops)
+        t = [1 if outc == "accept" else 0, d]
+        if trans[s][opidx[k]] not in (None, t):      # a state is printed once per history length it is reached at
+            raise vlib.Infra("EnterpriseConf generation: two different transitions for state %d op %s" % (s, k))
+        trans[s][opidx[k]] = t
+    depth, path, queue = {0: 0}, {0: [0, 0]}, [0]
+    while queue:
+        s = queue.pop(0)
+        if trans[s] is None:
+            continue
+        for oi, (a, d) in enumerate(trans[s]):
+            if d not in depth:
+                depth[d], path[d] = depth[s] + 1, [s, oi]
+                queue.append(d)
+    for s in range(len(states)):
+        if s not in depth:
+            raise vlib.Infra("EnterpriseConf generation: state %d is not reachable from the first printed state" % s)
+        exp = trans[s] is not None
+        if exp and any(x is None for x in trans[s]):
+            raise vlib.Infra("EnterpriseConf generation: state %d lacks a transition for some op" % s)
+        if exp != (depth[s] < maxlen):
+            raise vlib.Infra("EnterpriseConf generation: state %d at depth %d expanded=%s with histories <= %d" % (s, depth[s], exp, maxlen))
+    return {"world": EC_WORLD, "ops": ops, "states": states, "trans": trans, "path": [path[s] for s in range(len(states))],
+            "depth": [depth[s] for s in range(len(states))], "maxlen": maxlen, "offcap": 400}
+
+
+def build_harness(c):
+    """vlib.go_test builds and runs in one call; the two harnesses of this check live in the same test binary, which is
+    built once per run (from the current tree, through the overlay) while TLC is running."""
+    ov = vlib.gen_overlay()
+    exe = os.path.join(c.work, "mempool-%d.test" % os.getpid())
+    r = subprocess.run(["go", "test", "-c", "-tags", "verif", "-overlay", ov, "-vet=off", "-o", exe, "./mempool/"], cwd=vlib.REPO,
+                       env=vlib.goenv(None), capture_output=True, text=True, timeout=1800)
+    if r.returncode != 0 or not os.path.exists(exe):
+        raise vlib.Infra("harness does not build (./mempool/):\n%s" % (r.stdout + r.stderr)[-4000:])
+    return exe
+
+
+def run_harness(c, exe, run, env, tag, timeout=3000):
+    cwd = os.path.join(c.work, "run_" + tag)
+    os.makedirs(cwd, exist_ok=True)
+    env = dict(env, TMPDIR=cwd)
+    try:
+        r = subprocess.run([exe, "-test.run", run, "-test.timeout", "%ds" % timeout, "-test.count", "1"], cwd=cwd, env=vlib.goenv(env),
+                           capture_output=True, text=True, timeout=timeout + 60)
+    except subprocess.TimeoutExpired:
+        raise vlib.Infra("harness timed out: %s" % run)
+    finally:
+        shutil.rmtree(cwd, ignore_errors=True)
+    return r.returncode, r.stdout + r.stderr
+
+
+def ec_pipeline(c, exe_future, cfg, maxlen, tag):
+    """generation run, then the harness on it (runs beside the Admission runs)"""
+    t0 = time.time()
+    gen = vlib.tlc(SPEC_DIR, "MC_EnterpriseConf", cfg, os.path.join(c.work, "tlc_" + tag), workers=4, timeout=2400)
+    if not gen.ok:
+        return gen, None, None, None
+    inp = ec_parse(gen.out, maxlen)
+    inpath = os.path.join(c.work, "entconf_%s_in.json" % tag)
+    json.dump(inp, open(inpath, "w"))
+    outpath = os.path.join(c.work, "entconf_%s_out.json" % tag)
+    rc, output = run_harness(c, exe_future.result(), "^TestVerifEntConf$", {"VERIF_IN": inpath, "VERIF_OUT": outpath, "VERIF_SEED": c.seed,
+                             "VERIF_TIER": c.tier}, "ec_" + tag)
+    stats = {"ops": len(inp["ops"]), "states": len(inp["states"]), "expanded": sum(1 for t in inp["trans"] if t is not None),
+             "histories_up_to": maxlen, "wall_s": round(time.time() - t0, 1)}
+    return gen, (rc, output, outpath), stats, inp
+
+
 def run(c):
     quick = c.tier == "quick"
     c.rule = ("one case = one (world, sender class, transaction shape) enumerated by TLC from Admission.tla, in its seeded concretisations (1 quick, 2 thorough), sent "
               "through verifyTx, validateTx and (if really admitted) executeTx in both execution modes; plus, after every successfully executed "
               "case, the state readers and the probe transactions of the same contract on the committed state (next block and a day later); plus seeded byte-level mutations of "
-              "governance payloads; distinct = distinct (world, sender, shape)")
+              "governance payloads; plus one case per (enterprise storage state reachable in fewer than 3 (quick) / 4 (thorough) transactions of the "
+              "EnterpriseConf alphabet, transaction of the alphabet), sent through the same layers with commit, readers and round-trip comparison; "
+              "distinct = distinct (world, sender, shape) + distinct (state, transaction)")
     c.assumptions = ["in-memory key-value store (aergo-lib memorydb) stands for the disk store",
                      "pure-Go stub for the contract VM (overlay); governance transactions do not reach it",
                      "the pool asks a stand-in chain service (same code as chain.ChainWorker, VM stub) whether a contract pays the fee",
@@ -62,13 +189,50 @@ def run(c):
              "Admission design: every shape gets an outcome at every layer it reaches; admitted => executed; layers in order; no deadlock"),
             ("MC_Admission_seq.cfg", 4, "Admission design, two-transaction behaviours (every executed transaction followed by every probe, now or a day later)"),
             ("Gen_Admission.cfg" if quick else "Gen_Admission_big.cfg", 1, "Admission case enumeration")]
-    with ThreadPoolExecutor(3) as ex:
+    ecjobs = [("MC_EnterpriseConf.cfg" if quick else "MC_EnterpriseConf_big.cfg", 2 if quick else 6,
+               "EnterpriseConf design: over every history of <= %d admitted-or-refused enterprise transactions no validator reaches an undefined index "
+               "(Total, ReadersDefined) and what a conf transaction set is what is read back (RoundTrip, RoundTripState, Frame)" % (3 if quick else 4)),
+              ("MC_EnterpriseConf_nosep.cfg", 2, "self-test of the EnterpriseConf model: without the separator check TLC must find Total violated")]
+    ecgens = [("Gen_EnterpriseConf.cfg", 3, "histories3")] if quick else [("Gen_EnterpriseConf_big.cfg", 4, "histories4")]
+    with ThreadPoolExecutor(8) as ex:
+        exe = ex.submit(build_harness, c)
         futs = [ex.submit(vlib.tlc, SPEC_DIR, "MC_Admission", cfg, os.path.join(c.work, "tlc%d" % i), workers=w, timeout=2400)
                 for i, (cfg, w, _) in enumerate(jobs)]
+        ecfuts = [ex.submit(vlib.tlc, SPEC_DIR, "MC_EnterpriseConf", cfg, os.path.join(c.work, "tlce%d" % i), workers=w, timeout=2400)
+                  for i, (cfg, w, _) in enumerate(ecjobs)]
+        ecpipes = [ex.submit(ec_pipeline, c, exe, cfg, maxlen, tag) for cfg, maxlen, tag in ecgens]
         results = [f.result() for f in futs]
-    for (cfg, w, what), res in zip(jobs, results):
-        c.require_ok(res, what)
-    gen = results[2]
+        for (cfg, w, what), res in zip(jobs, results):
+            c.require_ok(res, what)
+        gen = results[2]
+        run_admission(c, quick, gen, exe.result())
+        ecres = [f.result() for f in ecfuts]
+        ecpiperes = [f.result() for f in ecpipes]
+    try:
+        os.remove(exe.result())         # binaries are never kept across runs
+    except OSError:
+        pass
+    c.require_ok(ecres[0], ecjobs[0][2])
+    c.add_tlc(ecres[1], ecjobs[1][2])
+    if ecres[1].violation != "Total":
+        raise vlib.Infra("self-test of the EnterpriseConf model failed: expected Total violated without the separator check, got %s\n%s"
+                         % (ecres[1].violation, ecres[1].out[-2000:]))
+    c.extra["entconf"] = {}
+    for (cfg, maxlen, tag), (g, gorun, stats, inp) in zip(ecgens, ecpiperes):
+        c.require_ok(g, "EnterpriseConf transition enumeration (histories <= %d)" % maxlen)
+        rc, output, outpath = gorun
+        r = c.absorb_go(outpath, output)
+        if rc != 0 and not r.get("violations"):
+            raise vlib.Infra("EnterpriseConf harness failed:\n" + output[-3000:])
+        ex2 = r.get("extra") or {}
+        agree = ex2.get("spec_vs_code") or {}
+        if agree.get("outcome/agree", 0) + agree.get("outcome/differ", 0) == 0 or agree.get("store/agree", 0) + agree.get("store/differ", 0) == 0:
+            raise vlib.Infra("EnterpriseConf harness (%s): nothing was compared: %s" % (tag, agree))
+        stats.update(spec_vs_code=agree, drift=ex2.get("drift"), outcomes=ex2.get("outcomes"), offmodel_states=ex2.get("offmodel_states"))
+        c.extra["entconf"][tag] = stats
+
+
+def run_admission(c, quick, gen, exe):
     cases, probes, worlds = parse_cases(gen.out)
     if len(cases) < 5000 or not probes or not worlds:
         raise vlib.Infra("case enumeration incomplete: %d cases, probes=%s worlds=%s" % (len(cases), bool(probes), bool(worlds)))
@@ -84,8 +248,7 @@ def run(c):
     inpath = os.path.join(c.work, "admission_in.json")
     json.dump(inp, open(inpath, "w"))
     outpath = os.path.join(c.work, "admission_out.json")
-    rc, output = vlib.go_test("./mempool/", "^TestVerifAdmission$", env={"VERIF_IN": inpath, "VERIF_OUT": outpath,
-                              "VERIF_SEED": c.seed, "VERIF_TIER": c.tier}, timeout=3000)
+    rc, output = run_harness(c, exe, "^TestVerifAdmission$", {"VERIF_IN": inpath, "VERIF_OUT": outpath, "VERIF_SEED": c.seed, "VERIF_TIER": c.tier}, "adm")
     r = c.absorb_go(outpath, output)
     if rc != 0 and not r.get("violations"):
         raise vlib.Infra("harness failed:\n" + output[-3000:])
